@@ -32,12 +32,12 @@ def maxdiff(a, b):
 
 
 def run_case(desc):
-    cfg = desc["cfg"]
+    cfg = dict(desc["cfg"], scale=1.0)  # C16 passes drivers explicitly and scales them itself
     U = sg.universe_of(cfg)
     letters = gen.uletters(U)
     shape = tuple(len(d["items"]) for d in U["dims"])
     n = shape[0]
-    u = np.array(cfg["driver"], float).reshape(shape)
+    u = np.array(cfg["driver"], float).reshape(shape)  # C16 scales explicitly
     v = np.array(desc["v"], float).reshape(-1)[: u.size]
     v = np.resize(v, u.size).reshape(shape)
     probe = sg.build_stock(dict(cfg, cls="idsm"))
